@@ -143,6 +143,9 @@ func ParseLine(s string) *Line {
 		}
 	}
 
+	if s == "" {
+		return nil
+	}
 	if s[0] == ':' {
 		// remove a source and parse it
 		if idx := strings.Index(s, " "); idx != -1 {
@@ -169,6 +172,9 @@ func ParseLine(s string) *Line {
 	} else {
 		args = strings.Fields(args[0])
 	}
+	if len(args) == 0 {
+		return nil
+	}
 	line.Cmd = strings.ToUpper(args[0])
 	if len(args) > 1 {
 		line.Args = args[1:]
@@ -178,7 +184,7 @@ func ParseLine(s string) *Line {
 	// separate events as opposed to forcing people to have gargantuan
 	// handlers to cope with the possibilities.
 	if (line.Cmd == PRIVMSG || line.Cmd == NOTICE) &&
-		len(line.Args[1]) > 2 &&
+		len(line.Args) > 1 && len(line.Args[1]) > 2 &&
 		strings.HasPrefix(line.Args[1], "\001") &&
 		strings.HasSuffix(line.Args[1], "\001") {
 		// WOO, it's a CTCP message
@@ -207,7 +213,7 @@ func ParseLine(s string) *Line {
 func parseUserHost(uh string) (nick, ident, host string, ok bool) {
 	uh = strings.TrimSpace(uh)
 	nidx, uidx := strings.Index(uh, "!"), strings.Index(uh, "@")
-	if uidx == -1 || nidx == -1 {
+	if uidx == -1 || nidx == -1 || uidx < nidx {
 		return "", "", "", false
 	}
 	return uh[:nidx], uh[nidx+1 : uidx], uh[uidx+1:], true
